@@ -718,6 +718,26 @@ func describe(res *kit.Result, c *Case, ip *interp, exps []string) {
 	lab(braceLit, "lit:braces")
 	lab(nlLit, "lit:newline")
 	lab(wrap, "lit:brace-around-directive")
+	spAny, spShort := c.spelled()
+	lab(spAny, "value:spells-directive-with-neighbours")
+	lab(spShort, "value:spells-directive-with-neighbours:<=4-bytes")
+	replLit, replOv := false, false
+	c.walk(func(n Node, _ int, _ bool) {
+		if n.K == KLit && reReplSyntax.MatchString(n.S) {
+			replLit = true
+		}
+	})
+	for _, ch := range c.Children {
+		for _, o := range ch {
+			(&Case{Base: o.Body}).walk(func(n Node, _ int, _ bool) {
+				if n.K == KLit && reReplSyntax.MatchString(n.S) {
+					replOv = true
+				}
+			})
+		}
+	}
+	lab(replLit, "lit:replacement-template-syntax")
+	lab(replOv, "lit:replacement-template-syntax-in-override")
 	lab(types["i"] || types["l"], "data:int")
 	lab(types["f"], "data:float")
 	lab(types["b"], "data:bool")
@@ -932,13 +952,13 @@ func TestC16(t *testing.T) {
 	openKF = kit.OpenFindings("C16")
 	kit.Main(t, kit.Spec[Case]{
 		ID: "C16", Level: "exploration",
-		Rule: "template family drawn as ASTs from the documented grammar: a chain of 1-3 (4% of the families: 4-6) levels (literals incl. newlines/braces, variables, if / if-else, each with fields/this/@index/@first/@last/inner if - over a flag or an ordinary field of the item that holds a bool or, mostly, a value of any documented condition type: bool, string, int, int64, float64, empty / zero in nearly half of the draws, negative, huge, fractional otherwise - /nested each to depth 3, blocks + extends, image placeholders alone on a line and 1-3 of them - mostly the same image again - inside a line of literals and variables) and 0-2 sibling templates that extend any template of the family and redefine other subsets of its blocks; typed data (strings incl. brace-bearing and multi-line; int and int64 over their whole range with the 32-, 53- and 64-bit boundaries; float64 over its whole range - short decimals, many digits, whole numbers, both zeros, 2^53..2^63 and beyond, tiny, NaN, infinities; bool, nil; conditions true/false/absent; lists of maps / scalars, empty, absent, of 1-4 items and - 3% of the top-level lists - of 10, 11, 12, 17, 33 or 65 items; items with up to 13 fields; names that extend another name by a digit: qty1 / qty10, c1 / c10, img1 / img10; now and then a family of 10-12 blocks (b1 / b10 / b11 among the names), a base template of 12-24 top-level parts and literals of 70-1500 characters); names: block and template names are quoted strings (identifier-like, or - about half of the families - CJK, blanks, dots, dashes, digits first, punctuation; defined in the base and redefined under the same name below it), variable / condition / list / field names are ASCII words incl. a digit or underscore first, digits only, one character, names differing by case only; serialised to text, loaded on a fresh engine by a drawn load schedule (optional history: child before its base, an earlier version of a template later replaced, identical re-loads; then always the whole chain base-to-child with the final sources, then the siblings); then a drawn sequence of 0-3 renders of any templates of the family (child then base, sibling then sibling, ...) followed by the render of the last chain template (several times, data set in two orders, when a value names another supplied name) - EVERY render is compared with the reference text of the template rendered; values with braces and whole directive tokens (placeholders naming other supplied variables, conditions, lists, fields, unknown names; {{/if}}, {{else}}, {{/each}}, ...) occur in every position and are judged exactly outside the (position, directive kind) classes of the open re-scan findings; non-trivial = >=2 directive kinds among {var, if, each, block, image} and (a loop over >=2 items or a conditional with an else branch) and the data has both a present and an absent name used by the template; distinct = distinct (AST skeleton incl. list names, literal classes, sibling overrides and render sequence, entry point, per-name data type/presence/list-length vector, set of schedule classes)",
+		Rule: "template family drawn as ASTs from the documented grammar: a chain of 1-3 (4% of the families: 4-6) levels (literals incl. newlines/braces, variables, if / if-else, each with fields/this/@index/@first/@last/inner if - over a flag or an ordinary field of the item that holds a bool or, mostly, a value of any documented condition type: bool, string, int, int64, float64, empty / zero in nearly half of the draws, negative, huge, fractional otherwise - /nested each to depth 3, blocks + extends, image placeholders alone on a line and 1-3 of them - mostly the same image again - inside a line of literals and variables) and 0-2 sibling templates that extend any template of the family and redefine other subsets of its blocks; typed data (strings incl. brace-bearing and multi-line; int and int64 over their whole range with the 32-, 53- and 64-bit boundaries; float64 over its whole range - short decimals, many digits, whole numbers, both zeros, 2^53..2^63 and beyond, tiny, NaN, infinities; bool, nil; conditions true/false/absent; lists of maps / scalars, empty, absent, of 1-4 items and - 3% of the top-level lists - of 10, 11, 12, 17, 33 or 65 items; items with up to 13 fields; names that extend another name by a digit: qty1 / qty10, c1 / c10, img1 / img10; now and then a family of 10-12 blocks (b1 / b10 / b11 among the names), a base template of 12-24 top-level parts and literals of 70-1500 characters); names: block and template names are quoted strings (identifier-like, or - about half of the families - CJK, blanks, dots, dashes, digits first, punctuation; defined in the base and redefined under the same name below it), variable / condition / list / field names are ASCII words incl. a digit or underscore first, digits only, one character, names differing by case only; serialised to text, loaded on a fresh engine by a drawn load schedule (optional history: child before its base, an earlier version of a template later replaced, identical re-loads; then always the whole chain base-to-child with the final sources, then the siblings); then a drawn sequence of 0-3 renders of any templates of the family (child then base, sibling then sibling, ...) followed by the render of the last chain template (several times, data set in two orders, when a value names another supplied name) - EVERY render is compared with the reference text of the template rendered; literal text incl. what a regexp replacement template or a format string would expand ($1, $name, ${x}, $$, \\1, %s); values with braces and whole directive tokens (placeholders naming other supplied variables, conditions, lists, fields, unknown names; {{/if}}, {{else}}, {{/each}}, ...) and - in about one case in ten - a directive token spelled piecewise by a 1-4 byte (or longer) value and the literal text / values next to it ({{v}}me}} with v = '{{na'; '{{' + @index + '}}') occur in every position and are judged exactly outside the (position, directive kind) classes of the open re-scan findings; non-trivial = >=2 directive kinds among {var, if, each, block, image} and (a loop over >=2 items or a conditional with an else branch) and the data has both a present and an absent name used by the template; distinct = distinct (AST skeleton incl. list names, literal classes, sibling overrides and render sequence, entry point, per-name data type/presence/list-length vector, set of schedule classes)",
 		Gen:  genCase, Run: run, Findings: findings, Fixed: fixedCases,
 		Assumptions: []string{
 			"names of variables, conditions, lists, item fields and images are pairwise distinct words over ASCII letters, digits and the underscore (what {{name}} is parsed as; a digit or underscore may come first) and none is this/else/index/first/last (the documents are silent on shadowing); block names and template names are quoted strings: any characters but the double quote, braces and line breaks, pairwise distinct",
 			"conditionals are not nested in conditionals; a conditional inside a loop tests a field of the current item whose value has one of the types the documents list for conditions (CHANGELOG: bool, string, int, int64, float64; empty and zero values are judged false): a bool is its value, a string is true unless empty, a number is true unless zero (both float zeros are zero), an absent field is false; strings of blanks only, the words false / 0 / no, NaN, nil, lists and maps are never tested (the documents do not say what they mean)",
 			"literal text never forms a directive: no literal token ends with '{' or starts with '}' except a lone brace placed directly around a directive; '{{ x }}' with inner blanks is literal text",
-			"values never complete a directive together with their surroundings: no value starts with '}' and every '}}' inside a value follows a character that cannot belong to a name; whole directive tokens inside a value are text",
+			"values are text whatever they hold and whatever they spell together with their surroundings: whole directive tokens, and pieces of a token ('{{', '{{na', '}}', 'x}}') that only together with the literal text or the values next to them read as a directive, are expected verbatim; in the template SOURCE the piece with the opening braces of such a token is always a value - the literal pieces are the tail of the token (name characters, blanks, closing braces: closing braces without an opening are text)",
 			"the engine history before the final base-to-child load of the chain carries no meaning (a load defines the named template anew); errors of history loads are ignored, the final loads must succeed",
 			"integers (int, int64) are inserted as their decimal text over the whole range; nil renders as nothing",
 			"the documents name no textual form for float64 values: a float that is finite, not a whole number, with 1e-4 <= |f| < 1e15 is expected as its shortest decimal text (every notation agrees there); for every other float (whole numbers, both zeros, >= 1e15, < 1e-4, NaN, infinities) the clause is restricted to: the text inserted at that place is a decimal numeral (or NaN / Inf) that parses back to the same float64, sign of zero included - so 4611686018427387904 and 4611686018427388000 and 4.611686018427388e+18 are all accepted for 2^62, and 0 is not accepted for -0",
@@ -958,7 +978,8 @@ func TestC16(t *testing.T) {
 			"loopcond:bool:true": 0.01, "loopcond:bool:false": 0.01, "loopcond:string:true": 0.008, "loopcond:string:false": 0.008, "loopcond:int:true": 0.008, "loopcond:int:false": 0.008,
 			"loopcond:int64:true": 0.008, "loopcond:int64:false": 0.008, "loopcond:float64:true": 0.008, "loopcond:float64:false": 0.008, "loopcond:float64:-0": 0.002, "loopcond:int:negative": 0.004,
 			"loopcond:int64:negative": 0.004, "loopcond:float64:negative": 0.002, "list:10+items": 0.012, "list:17+items": 0.004, "list:65+items": 0.002, "chain:4+": 0.015, "item:9+fields": 0.05, "tpl:12+parts": 0.02, "tpl:10+blocks": 0.008,
-			"lit:70+chars":                 0.008,
+			"lit:70+chars":                           0.008,
+			"value:spells-directive-with-neighbours": 0.05, "value:spells-directive-with-neighbours:<=4-bytes": 0.03, "lit:replacement-template-syntax": 0.1, "lit:replacement-template-syntax-in-override": 0.01,
 			"name:block-beyond-identifier": 0.12, "name:block-beyond-identifier-override-rendered": 0.08, "name:templates-beyond-identifier": 0.1, "name:word-beyond-identifier": 0.3},
 	})
 }
